@@ -2,7 +2,7 @@
 import os
 import re
 
-from ..mir import Callee, last_seg, loc, op_int, op_place
+from ..mir import tymatch, Callee, last_seg, loc, op_int, op_place
 from .common import enum_fn_table, gates_of_value, success_edge_dominates
 
 EXPLANATION = (
@@ -271,6 +271,18 @@ def run(ctx):
     for nm, suffix in (("cipher", "codec::aead::CipherKind"), ("protocol", "protocol::Protocol"), ("mode", "config::Mode")):
         its = [it for it in prog.item("enum", suffix) if it["path"].startswith("octo_squirrel::")]
         if not its:
+            # moved to another module: the enum of that name whose serde names are the documented ones
+            docs_ = {"cipher": list(readme["ciphers"].keys()), "protocol": readme["protocols"],
+                     "mode": sorted(set(readme["server_modes"]) | set(readme["client_modes"]))}[nm]
+            for it in prog.items:
+                if it["k"] == "enum" and last_seg(it["path"]) == last_seg(suffix) and it["path"].startswith("octo_squirrel::"):
+                    try:
+                        sn_ = serde_names(prog, it)
+                    except Exception:
+                        continue
+                    if any(v and v[0] in docs_ for v in sn_.values()):
+                        its.append(it)
+        if not its:
             ctx.anchor_lost("G1", f"{nm} enum ({suffix})")
             continue
         enums[nm] = its[0]
@@ -332,7 +344,7 @@ def run(ctx):
         for b in prog.prod_bodies():
             if b.root != b.defp:
                 continue
-            builds = any(s["k"] == "assign" and s["rv"]["k"] == "agg" and s["rv"].get("def", "").endswith("codec::aead::CipherMethod") for blk in b.rpo() for s in b.stmts(blk))
+            builds = any(s["k"] == "assign" and s["rv"]["k"] == "agg" and tymatch(s["rv"].get("def", ""), "codec::aead::CipherMethod") for blk in b.rpo() for s in b.stmts(blk))
             if builds:
                 ctor_fns.append(b)
         ctx.floor("G2a", "functions constructing CipherMethod from a kind", 2, len(ctor_fns))
@@ -345,7 +357,7 @@ def run(ctx):
                 built = set()
                 for blk in blocks:
                     for s in b.stmts(blk):
-                        if s["k"] == "assign" and s["rv"]["k"] == "agg" and s["rv"].get("def", "").endswith("codec::aead::CipherMethod"):
+                        if s["k"] == "assign" and s["rv"]["k"] == "agg" and tymatch(s["rv"].get("def", ""), "codec::aead::CipherMethod"):
                             built.add(s["rv"]["variant"])
                     t = b.term(blk)
                     if t and t["k"] == "call":
@@ -373,7 +385,7 @@ def run(ctx):
                 ctx.ob("G2a", it["path"], f"{nm}:payload-type", loc(it["sp"]), ok, f"CipherMethod::{nm} wraps {ty[:80]}...", ordinal=False)
         # (c) size tables on CipherKind (tag_size, ciphertext_overhead) and CipherMethod
         for b in prog.prod_bodies():
-            if b.impl_self_def and b.impl_self_def.endswith("codec::aead::CipherKind") and b.method in ("tag_size",) and b.root == b.defp:
+            if b.impl_self_def and tymatch(b.impl_self_def, "codec::aead::CipherKind") and b.method in ("tag_size",) and b.root == b.defp:
                 sw = _kind_switch(b)
                 if sw is None:
                     continue
